@@ -111,7 +111,7 @@ def _rows(draw, n, kinds, allow_empty=False):
         return {"k": "none"}
     if k == "scalar":
         return {"k": "scalar", "v": draw(st.one_of(st.integers(-n, n - 1), st.sampled_from([-n, -1, 0, n - 1]))),
-                "as": draw(st.sampled_from(["int", "int", "i8", "i4"]))}
+                "as": draw(st.sampled_from(["int", "int", "i8", "i4", "arr1"]))}
     if k in ("list", "tuple", "ndarray"):
         v = draw(_row_lists(n, allow_empty))
         r = {"k": k, "v": v}
@@ -298,6 +298,8 @@ def _rows_obj(r):
     if k == "none":
         return None
     if k == "scalar":
+        if r["as"] == "arr1":
+            return np.array([r["v"]], dtype="i8")       # one-element array: the same selection as the scalar
         return {"int": int, "i8": np.int64, "i4": np.int32}[r["as"]](r["v"])
     if k == "list":
         return list(r["v"])
@@ -430,12 +432,29 @@ def _write_sfile(case, data, fname):
     must(sfile.write, fname, data, **kw)
 
 
+_HANDED = {}
+
+
+def _args_intact(what):
+    for k in ("rows", "cols"):
+        before, now = _HANDED.get(k + "_before"), _HANDED.get(k)
+        if before is not None:
+            require(now.dtype == before.dtype and now.shape == before.shape and now.tobytes() == before.tobytes(),
+                    "%s: the %s index array handed to the read was modified: %r -> %r (reusing it for the next "
+                    "read selects other rows/columns)", what, k, before.tolist(), now.tolist())
+
+
 def _read_style(case, data, fname, need_full):
     """Returns (result, full_read_or_None, shape) where shape is plain|split|struct."""
     import esutil
     from esutil import recfile, sfile
     style = case["style"]
     rows, cols = _rows_obj(case["rows"]), _cols_obj(case["cols"])
+    # the index objects the caller hands over are his: remember them to see that the read leaves them alone
+    # (an index array reused for the next file must still select the same rows)
+    _HANDED["rows"], _HANDED["cols"] = rows, cols
+    _HANDED["rows_before"] = rows.copy() if isinstance(rows, np.ndarray) else None
+    _HANDED["cols_before"] = cols.copy() if isinstance(cols, np.ndarray) else None
     delim = case["delim"]
     n = data.size
     single = case["cols"]["k"] == "name"
@@ -555,7 +574,22 @@ def check(case, ctx):
         if isinstance(r.exc, Violation):
             raise r.exc
         return
-    res, full, shape = _read_style(case, data, fname, text)
+    r0 = case["rows"]
+    if r0["k"] == "scalar" and r0.get("as") == "arr1" and r0["v"] < 0:
+        # a one-element index *array* holding a negative row: the statement speaks of scalar rows in [-n,n) and
+        # of row lists; whether -1 inside a list counts from the end is not stated, so a rejection is as
+        # acceptable as the row n-1 -- but the caller's array must be left alone either way
+        r = sut(_read_style, case, data, fname, text)
+        _args_intact(what)
+        if isinstance(r, Raised):
+            if isinstance(r.exc, Violation):
+                raise r.exc
+            ctx.count("negative-one-element-array-rejected")
+            return
+        res, full, shape = r
+    else:
+        res, full, shape = _read_style(case, data, fname, text)
+        _args_intact(what)
     if text:
         _check_full_text(full, data, what)
         ref = full
